@@ -10,7 +10,7 @@ base="$1"; shift
 cd /verif || exit 2
 H=$(git -C /repo rev-parse HEAD)
 seeds="$*"
-[ -z "$seeds" ] && seeds=$(ls seeded)
+[ -z "$seeds" ] && seeds=$(cd seeded && ls -d */ | tr -d /)
 LOG=${SEEDALL_LOG:-out/seedall.log}
 : > "$LOG"
 for sid in $seeds; do
